@@ -75,7 +75,8 @@ Qed.
 Print Assumptions C07_out_size_decomposition.
 
 (* the size model IS the length of the schema-directed encoding of check C01 (Codec/Schema.v enc on
-   Ledger/Schemas.v TransactionOutput / TransactionOutputLegacyDH), for every unrolling depth d of the recursive
+   Ledger/Schemas.v TransactionOutput: map form, or the SArrOpt array form without / with the trailing data hash --
+   all three forms are now alternatives of that one schema), for every unrolling depth d of the recursive
    schemas, every address, bundle (28-byte policy ids), datum (32-byte hash / any PlutusData value) and script
    reference (any NativeScript value / Plutus bytes in one of the three languages) *)
 Theorem C07_out_size_is_schema_encoding : forall (d : nat) (o : coutput),
@@ -83,6 +84,15 @@ Theorem C07_out_size_is_schema_encoding : forall (d : nat) (o : coutput),
   N.of_nat (length (enc_output d o)) = out_size (shape d o).
 Proof. exact out_size_is_schema_length. Qed.
 Print Assumptions C07_out_size_is_schema_encoding.
+
+(* ... and the array forms are byte for byte the stand-alone schemas TransactionOutputLegacy /
+   TransactionOutputLegacyDH (the statement this theorem had before the schema layer gained SArrOpt) *)
+Theorem C07_out_size_is_standalone_schema_encoding : forall (d : nat) (o : coutput),
+  enc_output d o = enc_output_standalone d o /\
+  (ids28 (co_ma o) -> hash_ok (co_datum o) -> lang_ok (co_sref o) ->
+   N.of_nat (length (enc_output_standalone d o)) = out_size (shape d o)).
+Proof. intros d o. split; [apply enc_output_standalone_eq | apply out_size_is_standalone_schema_length]. Qed.
+Print Assumptions C07_out_size_is_standalone_schema_encoding.
 
 Theorem C07_min_ada_for_output_sound : forall (cpb : N) (o : output) (c : N),
   min_ada_for_output cpb o = Ok c ->
